@@ -70,7 +70,7 @@ impl Prop for C06 {
     }
 
     fn cases(tier: Tier) -> u64 {
-        tier.pick(2_400, 40_000)
+        tier.pick(6_000, 60_000)
     }
 
     fn strategy(tier: Tier) -> BoxedStrategy<Case> {
